@@ -257,3 +257,156 @@ func sharedPosPart(c *reg.Ctx) *reg.Result {
 		return total
 	}
 }
+
+// ---------------------------------------------------------------------------------------------
+// C01, two transfers at once through ONE Client (two Files, two goroutines): what each call moves is what its own
+// source / file holds, whatever the other call does at the same time. Every schedule with <= d deviations.
+
+type twoSpec struct {
+	a, b string // "ReadFrom" (sequential upload), "ReadFromC" (concurrent upload), "WriteTo", "Write"
+}
+
+func twoScenario(s twoSpec) explore.Scenario {
+	return func() (func(), func(*vsched.Exec) explore.Verdict) {
+		var env *cliEnv
+		files := map[string]*pfile{}
+		res := make([]string, 2)
+		var bad []string
+		var finalErr error
+		srcs := []string{"AAAAAA", "bbbbbb"}
+		body := func() {
+			env = newCliEnv(func(e *cliEnv) {
+				e.peer.Permute = true
+				for i, h := range []string{"h1", "h2"} {
+					f := &pfile{}
+					if s.a == "WriteTo" && i == 0 || s.b == "WriteTo" && i == 1 {
+						f.data = []byte(srcs[i])
+					}
+					files[h] = f
+					e.peer.files["/"+h] = f
+					e.peer.handles[h] = f
+					e.peer.hpath[h] = "/" + h
+				}
+			}, MaxPacketUnchecked(2), MaxConcurrentRequestsPerFile(2), UseConcurrentWrites(s.a == "ReadFromC" || s.b == "ReadFromC"))
+			if env.err != nil {
+				return
+			}
+			var g vgroup
+			for i, kind := range []string{s.a, s.b} {
+				i, kind := i, kind
+				f := &File{c: env.c, path: fmt.Sprintf("/h%d", i+1), handle: fmt.Sprintf("h%d", i+1)}
+				g.Go(fmt.Sprintf("caller%d", i), func() {
+					switch kind {
+					case "ReadFrom", "ReadFromC":
+						var src io.Reader = strings.NewReader(srcs[i])
+						if kind == "ReadFrom" {
+							src = io.MultiReader(src) // hides Len/Size: the sequential path
+						}
+						n, err := f.ReadFrom(src)
+						res[i] = fmt.Sprintf("%s n=%d", kind, n)
+						if err != nil {
+							bad = append(bad, fmt.Sprintf("%s on file %d: %v", kind, i+1, err))
+						}
+					case "Write":
+						n, err := f.Write([]byte(srcs[i]))
+						res[i] = fmt.Sprintf("Write n=%d", n)
+						if err != nil {
+							bad = append(bad, fmt.Sprintf("Write on file %d: %v", i+1, err))
+						}
+					case "WriteTo":
+						var out strings.Builder
+						n, err := f.WriteTo(&out)
+						res[i] = fmt.Sprintf("WriteTo n=%d got=%q", n, out.String())
+						if err != nil {
+							bad = append(bad, fmt.Sprintf("WriteTo on file %d: %v", i+1, err))
+						}
+					}
+				})
+			}
+			g.Wait()
+			finalErr = env.c.Close()
+		}
+		judge := func(e *vsched.Exec) explore.Verdict {
+			v := explore.Verdict{}
+			if e.Deadlock {
+				v.Outcome = "DEADLOCK"
+				return v
+			}
+			if env.err != nil {
+				v.Bad, v.Key = "NewClientPipe: "+env.err.Error(), "c01-two-newclient"
+				return v
+			}
+			v.Outcome = fmt.Sprintf("%v | %q %q", res, files["h1"].data, files["h2"].data)
+			v.Sample = map[string]any{"calls": fmt.Sprint(s), "outcome": v.Outcome}
+			fail := func(k, f string, a ...any) explore.Verdict {
+				v.Bad = fmt.Sprintf("%s on file 1 || %s on file 2 through one Client: ", s.a, s.b) + fmt.Sprintf(f, a...) + "\n  wire: " + env.peer.wireString()
+				v.Key = "c01-two-" + k
+				return v
+			}
+			if len(env.peer.Bad) > 0 {
+				return fail("peer", "peer observed protocol violation: %v", env.peer.Bad)
+			}
+			if len(bad) > 0 || finalErr != nil {
+				return fail("error", "calls failed on a fault-free connection: %v; Client.Close %v", bad, finalErr)
+			}
+			for i, kind := range []string{s.a, s.b} {
+				h := fmt.Sprintf("h%d", i+1)
+				want := fmt.Sprintf("%s n=%d", kind, len(srcs[i]))
+				if kind == "WriteTo" {
+					want = fmt.Sprintf("WriteTo n=%d got=%q", len(srcs[i]), srcs[i])
+				}
+				if res[i] != want {
+					return fail("result", "call %d returned %q, want %q", i+1, res[i], want)
+				}
+				if string(files[h].data) != srcs[i] {
+					return fail("content", "file %d holds %q, its call transferred %q", i+1, files[h].data, srcs[i])
+				}
+			}
+			return v
+		}
+		return body, judge
+	}
+}
+
+func init() {
+	reg.Part("C01/twofiles", func(c *reg.Ctx) *reg.Result {
+		total := reg.NewResult(c.Part)
+		minDone := 1 << 30
+		for i, s := range []twoSpec{{"ReadFrom", "ReadFrom"}, {"ReadFromC", "ReadFromC"}, {"Write", "ReadFrom"}, {"WriteTo", "WriteTo"}, {"WriteTo", "ReadFrom"}} {
+			if c.Expired() {
+				total.Exhaustive = false
+				break
+			}
+			r := explore.Run(explore.Config{Prop: c.Property, Strategy: "db", Bound: c.ArgInt("bound", 2), Ctx: c, Label: c.Part}, twoScenario(s))
+			total.Evaluations += r.Evaluations
+			total.States += r.States
+			total.Transitions += r.Transitions
+			total.Distinct += r.Distinct
+			for k, v := range r.Outcomes {
+				total.Outcomes[fmt.Sprintf("s%d:%s", i, k)] += v
+			}
+			for _, sm := range r.Samples {
+				total.Sample(sm)
+			}
+			for _, v := range r.Violations {
+				total.Violate(c.Property, v.Key, v.Msg, map[string]any{"calls": fmt.Sprint(s), "schedule": v.Replay}, v.Trace)
+			}
+			if !r.Exhaustive {
+				total.Exhaustive = false
+			}
+			if r.EngineError != "" {
+				total.EngineError = r.EngineError
+				break
+			}
+			if d, ok := r.Notes["db_completed"].(int); ok && d < minDone {
+				minDone = d
+			}
+		}
+		if minDone == 1<<30 {
+			minDone = -1
+		}
+		total.Notes["db_completed"] = minDone
+		total.Notes["db_target"] = c.ArgInt("bound", 2)
+		return total
+	})
+}
